@@ -5,6 +5,7 @@ bit tricks: numeric key fields are replaced by a fixed-width *rank* token (their
 that column, compared as Python numbers), text is taken as is; keys put numeric fields first so that any
 order-preserving encoding gives the same order.  Knobs: batch_size and the KVFile cache size (spill path).
 """
+import datetime
 import decimal
 import json
 import random
@@ -20,6 +21,11 @@ STR_POOLS = [['a', 'b', 'ab', 'abc', 'B', 'é', 'zz'], ['a', 'a ', 'a!', 'a/', '
 NUM_POOLS = [[0, 1, -1, 2, 10, -10, 100], [0.5, -0.5, 1.25, -1.25, 0.0, 2.0], [1e10, -1e10, 1e-5, -1e-5, 3.0, -3.0], [1e300, -1e300, -1e232, 1e200, -1e200, 5.0],
              [decimal.Decimal('1.5'), decimal.Decimal('-2.25'), decimal.Decimal('100'), decimal.Decimal('0.001'), 7, -7.5], [2**40, -2**40, 2**52, 12345, -12345], [0, 0.0, -0.0, 1, -1],
              [1, 1.0, decimal.Decimal('1.00'), 2, 2.0, decimal.Decimal('2.50'), 2.5, -2, -2.0, decimal.Decimal('-2.00')]]
+# cells of a column that takes no part in any key: "a permutation of the input rows" means they come out as they went in
+PAYLOADS = [datetime.datetime(2020, 1, 2, 3, 4, 5, 678901), datetime.datetime(1999, 12, 31, 23, 59, 59, 999999, datetime.timezone(datetime.timedelta(hours=5, minutes=30))),
+            datetime.datetime(2021, 6, 1, 0, 0, 0, 1, datetime.timezone(datetime.timedelta(hours=-8), 'PST')), datetime.time(12, 0, 13, 361477), datetime.time(0, 0, 0, 5),
+            datetime.timedelta(days=1, seconds=2, microseconds=3), datetime.timedelta(microseconds=-7), datetime.date(2020, 2, 29), decimal.Decimal('1.10'), decimal.Decimal('1E+3'),
+            {'a': [1, 'x', decimal.Decimal('2.50')], 'b': {'c': None}}, [1, [2, [3, 'deep']], {'k': 0.1}], 1e-7, -0.0, None, '', ' padded ', True]
 
 
 def _run(payload, sub):
@@ -103,7 +109,7 @@ class C12(Prop):
             'resource passing by. Non-trivial = at least two rows share a key and at least two differ; distinct = distinct (key form, value pools, reverse, knobs, size).')
     ASSUMPTIONS = ['numeric key values are distinct in double precision (the encoding\'s stated domain) and key fields are non-null', 'multi-field keys put numeric fields before text so that the order does not depend on the particular order-preserving number encoding']
     REAL_VS_STUB = {'real': ['dataflows sort_rows', 'kvfile + sqlite ordering'], 'stub': ['KVFile twin: cache-size knob and operation counter']}
-    PROBES = ['reverse', 'spill-path', 'prefix-strings-below-0', 'negative-zero', 'huge-negative', 'decimal-values', 'callable-key', 'format-string-key', 'field-list-key', 'two-field-key', 'ties', 'other-resource', 'rows>10240', 'equal-numbers-different-spelling', 'numeric-looking-text', 'two-resources-sorted-by-one-step', 'control-characters-after-a-prefix', 'literal-text-between-text-fields']
+    PROBES = ['reverse', 'spill-path', 'prefix-strings-below-0', 'negative-zero', 'huge-negative', 'decimal-values', 'callable-key', 'format-string-key', 'field-list-key', 'two-field-key', 'ties', 'other-resource', 'rows>10240', 'equal-numbers-different-spelling', 'numeric-looking-text', 'two-resources-sorted-by-one-step', 'control-characters-after-a-prefix', 'literal-text-between-text-fields', 'rich-payload-cells']
     TIERS = {'quick': dict(runs=1500, wall=100, run_wall=300),
              'thorough': dict(runs=40000, wall=1700, run_wall=600)}
     SHRINK_FROZEN = ('fields',)
@@ -128,6 +134,10 @@ class C12(Prop):
                'fmt-ts': '{t}|{s}', 'fmt-ts2': 'k:{t}:{s}!'}[form]
         sc = {'table': {'name': 'res', 'fields': fields, 'rows': rows}, 'key': key, 'reverse': rng.random() < 0.4, 'other': rng.random() < 0.3,
               'batch': rng.sample([1, 2, 7, 1000], 2), 'kv': rng.sample([1, 3, 64, 10240], 2)}
+        if rng.random() < 0.5:
+            fields.append({'name': 'p', 'type': 'any'})
+            for row in rows:
+                row.append(T.enc(rng.choice(PAYLOADS)))
         if rng.random() < 0.2:
             pf = [{'name': '_id', 'type': 'integer'}, {'name': 'n', 'type': 'string'}, {'name': 'm', 'type': 'string'}, {'name': 's', 'type': 'string'}, {'name': 't', 'type': 'string'}]
             sc['pre'] = {'name': 'pre', 'fields': pf, 'rows': [[9000 + i, rng.choice(['x10', 'x9', 'x', 'y']), rng.choice(['p', 'q']), rng.choice(spool), rng.choice(tpool)] for i in range(rng.choice([1, 2, 5]))]}
@@ -140,6 +150,8 @@ class C12(Prop):
         except Exception as e:  # noqa
             ctx.discard('reference cannot evaluate: %s' % e)
         self._probes(sc, ctx, rows, keys)
+        if rows and 'p' in rows[0]:
+            ctx.probe('rich-payload-cells')
         outs = []
         for bs, kvsize in zip((sc.get('batch') or [1000, 1000])[:2], (sc.get('kv') or [10240, 3])[:2]):
             r = ctx.subrun(_run, {'sc': sc, 'batch_size': bs, 'kvsize': kvsize}, wall=500)
